@@ -215,6 +215,12 @@ def replay(chk, cid, path):
         print(f"replay {path}: no violation (digest {res['digest']})")
         return EXIT_OK
     print(f"replay {path}: {v['class']}: {v['msg']}")
+    sig = chk.signature(plan, v)
+    entry = next((e for e in load_known(cid) if sig_matches(sig, e["signature"])), None)
+    if entry is not None:
+        # the same filter as in a batch run: a listed finding is not an alarm
+        print(f"KNOWN-FINDING: property={cid} {entry['what']}")
+        return EXIT_OK
     print(f"VIOLATION property={cid} replay={path}")
     return EXIT_VIOLATION
 
